@@ -7,7 +7,8 @@ k_unit = KaniUnit("c11_k", CORE, modules=[dict(file=F, src="c11_container.rs")],
                   harnesses=[])  # c11_small_sequences (symbolic sequences <= 4 over 2-bit keys) exceeds 15 min in CBMC: not registered
 k_unit.native_witnesses = ["c11_wit_seven_keys", "c11_wit_new_unique"]
 v_unit = VerusUnit("c11_container", "c11_container", rlimit=60, paired_kani=(k_unit, []))
-UNITS = [v_unit, k_unit]
+sm = VerusUnit('c03_statemodel', 'c03_statemodel', rlimit=60)
+UNITS = [v_unit, sm, k_unit]
 EXPLANATION = ("CompactOrderedHashMap::{empty,len,is_empty,contains_key,get,get_index,insert} extracted verbatim and verified by Verus at every size "
                "against an abstract (slot map, value map) view with a whole-view postcondition for insert; representation invariant: slots < len, pairwise distinct")
 NOT_DECIDED = ("get_pair / keys / iter / to_vec / new on the HashMap-backed representation (sizes >= 5) are only exercised by concrete witnesses "
